@@ -454,6 +454,16 @@ Definition check_events (u : universe) (sp sp' : spec) (o : op) (evs : list ev) 
                             || existsb (ev_covers u sp sp' (op_is_join o) k l) evs) (u_actors u))
      (u_keys u).
 
+(* the automatic leave, counted: for every group the exiting actor was still in, every monitor
+   gets at least one Leave naming exactly that actor and at most one per monitor relation it
+   holds (group / scope / all scopes); nobody gets one for a group the actor was not in *)
+Definition check_exit_counts (u : universe) (sp sp' : spec) (a : N) (evs : list ev) : bool :=
+  forallb (fun k => forallb (fun l =>
+     let n := ev_count (mkEv l false (fst k) (snd k) [a]) evs in
+     if sm sp k a && negb (sdead sp a)
+     then Nat.leb (b2n (is_monitor sp' (fst k) (snd k) l)) n && Nat.leb n (fanout sp' (fst k) (snd k) l)
+     else Nat.eqb n 0) (u_actors u)) (u_keys u).
+
 Definition check_view (u : universe) (sp : spec) (o : op) (v : view) : bool :=
   let sp' := spec_step sp o in
   check_queries u sp' v && check_snapshot u sp' (v_snap v) && check_events u sp sp' o (v_events v).
